@@ -327,11 +327,14 @@ def run_shard(shard):
     stats = explorer.Stats()
     outcomes, sites, switch_sites = set(), set(), set()
     maxpoints = [0]
+    example = []          # the switches of one schedule with a preemption
 
     def process(ctx, result):
         obs, bad, sched = result
         used = sum(p.costs[p.chosen] for p in ctx.points)
         res.case(nontrivial=used > 0)
+        if used > 0 and not example:
+            example.extend([list(t) for t in sched.trace])
         outcomes.add(repr(obs))
         maxpoints[0] = max(maxpoints[0], sched.points)
         for p in ctx.points:
@@ -394,7 +397,8 @@ def run_shard(shard):
         res.count("thread_configurations")
         res.sample(dict(group="threads", kind=kind, cfg=c,
                         preemption_bound=bound,
-                        scheduling_points_per_execution=maxpoints[0]))
+                        scheduling_points_per_execution=maxpoints[0],
+                        switches_of_one_preempting_schedule=example))
     return res
 
 
